@@ -12,6 +12,7 @@ For the formats without a byte model only the spec-level `representable`/`norm` 
 engine checks the real writers/readers against them (a differential, not a proof).
 -/
 import LA.Lemmas.UstarSpec
+import LA.Lemmas.Stream
 import LA.Lemmas.Pax
 import LA.Props.C10
 namespace LA.C02
@@ -99,5 +100,39 @@ def sampleDir : Entry :=
     uname := List.replicate 32 117 }
 set_option maxRecDepth 16384 in
 example : representable .ustar sampleDir = true := by decide
+
+/-! ### a whole ustar archive -/
+
+/-- **stream round trip** for ustar.  Any list of entries, each with its body written in *any*
+chunking (more or fewer bytes than declared: truncated / zero filled), any output block size and
+last-block rule: the reader returns, in order, exactly the entries `archive_write_header`
+accepted — refused entries leave no trace (C10's last clause) — each agreeing with
+`norm .ustar` and with the body the writer framed; then a clean end of archive.
+`UstarEntryOK` excludes the two recorded defects (C10-tar-regslash, C10-ustar-dblslash). -/
+theorem stream_roundtrip_ustar (es : List (Entry × List (List Nat))) (hes : ∀ ec ∈ es, UstarEntryOK ec.1)
+    (bpb : Nat) (bilb : Int) :
+    ∃ rbs fmt, tarRead false (writeArchive .ustar es bpb bilb) 0 LA.Gen.CodecConsts.ARCHIVE_FORMAT_TAR []
+        = ⟨fmt, rbs, .eof, rbs.length + 1⟩ ∧
+      AllPairs ReadsBackAs (es.filter fun ec => ustarAccepted ec.1) rbs := by
+  unfold writeArchive
+  simp only [closeBytes]
+  rw [List.append_assoc, List.replicate_append_replicate]
+  obtain ⟨rbs, fmt, h, hall⟩ := tarRead_entries es hes {} (1024 + clientPad ((writeEntries .ustar {} es).1 ++ List.replicate 1024 0).length bpb bilb)
+    0 LA.Gen.CodecConsts.ARCHIVE_FORMAT_TAR [] (by omega)
+  refine ⟨rbs, fmt, ?_, hall⟩
+  rw [h]; simp
+
+/-- The framed body depends only on the concatenation of the chunks, not on the chunking. -/
+theorem body_independent_of_chunking (size : Nat) (c1 c2 : List (List Nat)) (h : c1.flatten = c2.flatten) :
+    entryBody size c1 = entryBody size c2 := by
+  unfold entryBody; rw [h]
+
+/-- … and is the declared number of bytes, whatever was supplied. -/
+theorem body_has_declared_size (size : Nat) (chunks : List (List Nat)) : (entryBody size chunks).length = size :=
+  entryBody_length size chunks
+
+/-- A two-entry archive with a refused entry in the middle satisfies the hypotheses. -/
+example : ustarAccepted { path := some [97], size := some 3 } = true
+    ∧ ustarAccepted { path := some [98], uid := 262144 } = false := by decide
 
 end LA.C02
